@@ -119,7 +119,9 @@ _MNEM_COMMON = ['STRT', 'STOP', 'STEP', 'NULL', 'COMP', 'WELL', 'FLD', 'LOC', 'P
                 'DATE', 'UWI', 'API', 'LIC', 'BHT', 'BS', 'FD', 'MATR', 'MDEN', 'RMF', 'DFD', 'EKB', 'EGL', 'RUN',
                 'TDD', 'TDL', 'CSGL', 'LATI', 'LONG', 'X', 'Y', 'GDAT', 'MUD', 'RM', 'RMT', 'ENG', 'WIT', 'TLI', 'BLI']
 _CURVE_COMMON = ['GR', 'NPHI', 'RHOB', 'DRHO', 'ILD', 'ILM', 'SFLU', 'SFLA', 'SP', 'CALI', 'DT', 'PEF', 'TENS', 'ETIM',
-                 'DPHI', 'LL8', 'MSFL', 'CILD', 'RT', 'RXO', 'SW', 'VSH', 'TEMP', 'ROP', 'WOB', 'C1', 'C2', 'HAZI', 'DEVI']
+                 'DPHI', 'LL8', 'MSFL', 'CILD', 'RT', 'RXO', 'SW', 'VSH', 'TEMP', 'ROP', 'WOB', 'C1', 'C2', 'HAZI', 'DEVI',
+                 # ordinary numeric curves that happen to be called TIME / DATE (with units other than HHMMSS / D)
+                 'TIME', 'DATE', 'TIME', 'DATE']
 _INDEX_NAMES = ['DEPT', 'DEPTH', 'TIME', 'INDEX', 'ETIM', 'Dept', 'MD']
 _UNITS = ['M', 'FT', 'F', 'US/F', 'G/C3', 'V/V', '%', 'GAPI', 'OHMM', 'MV', 'IN', '.1IN', '0.1IN', 'DEGC', 'DEGF',
           'uS/ft', 'K/M3', 'm3/m3', 'LB/F', 'S', 'MS', 'HHMMSS', 'D', '1/S', 'MM/DD/YY', 'PU', 'B/E', 'MMHO/M', 'lbs',
